@@ -165,15 +165,25 @@ impl Run {
             }
         }
 
+        // one line per listed finding (an entry may cover several concrete signatures)
         let kf = KnownFindings::load();
+        let mut per_entry: BTreeMap<String, (usize, Vec<String>)> = BTreeMap::new();
         for (sig, (n, _)) in &known {
             let what = kf
                 .lookup(&self.property, sig)
-                .map(|e| e.what_fails.clone())
+                .map(|e| format!("{} [listed as {}]", e.what_fails, e.signature))
                 .unwrap_or_default();
+            let e = per_entry.entry(what).or_default();
+            e.0 += n;
+            e.1.push(sig.clone());
+        }
+        for (what, (n, sigs)) in &per_entry {
             println!(
-                "KNOWN-FINDING: property={} {} [signature {}] ({} cases)",
-                self.property, what, sig, n
+                "KNOWN-FINDING: property={} {} ({} cases, {} concrete signatures)",
+                self.property,
+                what,
+                n,
+                sigs.len()
             );
         }
 
@@ -261,11 +271,25 @@ impl Run {
     }
 }
 
-/// Known-finding signatures may use `*` for a whole `|`-separated field.
+/// Known-finding signatures: `*` matches a whole `|`-separated field, `~a;b` matches a flag-set
+/// field containing flags a and b, `abc*` matches a prefix.
 pub fn sig_matches(pattern: &str, sig: &str) -> bool {
     let a: Vec<&str> = pattern.split('|').collect();
     let b: Vec<&str> = sig.split('|').collect();
-    a.len() == b.len() && a.iter().zip(b.iter()).all(|(p, s)| *p == "*" || p == s)
+    a.len() == b.len()
+        && a.iter().zip(b.iter()).all(|(p, s)| {
+            if *p == "*" || p == s {
+                true
+            } else if let Some(flags) = p.strip_prefix('~') {
+                // "~f1;f2": the field (a ';'-separated flag set) contains all listed flags
+                let have: Vec<&str> = s.split(';').collect();
+                flags.split(';').filter(|f| !f.is_empty()).all(|f| have.contains(&f))
+            } else if let Some(prefix) = p.strip_suffix('*') {
+                s.starts_with(prefix)
+            } else {
+                false
+            }
+        })
 }
 
 fn write_atomic(path: &Path, content: &str) {
